@@ -77,6 +77,8 @@ func classifyLP() string {
 			return "write"
 		case strings.HasSuffix(fn, "c04.lpCloseBody"):
 			return "close"
+		case strings.HasSuffix(fn, "c04.lpDropBody"):
+			return "drop"
 		case strings.HasSuffix(fn, "c04.lpObserveBody"):
 			return actNone
 		case strings.HasSuffix(fn, ".deleteUnorderedFiles"), strings.HasSuffix(fn, ".deleteUnorderedFiles.func1"),
@@ -227,6 +229,9 @@ var lpDirected = []struct {
 	{"C", "MmsTables.ReplaceFiles:|before Lock fs.lock", "Q", 0},            // compaction about to swap, query
 	{"Q", "TSIndexInfoImpl.unRefFiles:|before Unref file", "X", 0},          // query releasing its files, Close
 	{"Q", "MemTable.getSortedRecSafe:|after RUnlock t.mu", "W", 2},          // query between two series cursors, write
+	{"Q", "MmsTables.GetBothFilesRef:|after|RUnlock m.mu", "D", 0},          // query holding the files of a measurement, DropMeasurement
+	{"D", "MmsTables.DropMeasurement:|before Lock m.mu", "Q", 0},            // drop about to take the measurement out of the maps, query
+	{"F", "tsImmTableImpl.AddBothTSSPFiles:|before RLock m.mu", "D", 0},     // flush about to publish, DropMeasurement
 	{"C", "tsspFile.Path:|before RLock f.mu", "M", 2},                       // full-compaction plan walking the ordered list, merge replaces it
 	{"C", "tsspFile.Path:|before RLock f.mu", "F", 2},                       // … flush appends to it                                  // query releasing, Close
 }
@@ -299,6 +304,8 @@ func (o *lpOp) actor() string {
 		return actCompact
 	case "M":
 		return actMerge
+	case "D":
+		return "drop"
 	}
 	return "close"
 }
@@ -309,6 +316,8 @@ func (o *lpOp) String() string {
 		return "Q(" + o.ms + ")"
 	case "c":
 		return fmt.Sprintf("c%d", o.level)
+	case "D":
+		return "D(" + o.ms + ")"
 	}
 	return o.kind
 }
@@ -369,6 +378,10 @@ func lpMergeBody(sh *engine.VerifShard, o *lpOp) {
 	o.perr = safeStack(func() { o.err = sh.MergeOutOfOrder(o.full, true) })
 }
 
+func lpDropBody(sh *engine.VerifShard, o *lpOp) {
+	o.perr = safeStack(func() { o.err = sh.DropMeasurement(o.ms) })
+}
+
 func lpCloseBody(sh *engine.VerifShard, o *lpOp) {
 	o.perr = safeStack(func() { o.err = sh.CloseShardFirst() })
 }
@@ -392,6 +405,8 @@ func lpBody(sh *engine.VerifShard, o *lpOp) {
 		lpMergeBody(sh, o)
 	case "X":
 		lpCloseBody(sh, o)
+	case "D":
+		lpDropBody(sh, o)
 	}
 }
 
@@ -616,8 +631,10 @@ func (l *lpRun) pickOp(first bool, other *lpOp) *lpOp {
 			o.kind, o.level = "c", uint16(r.Intn(2))
 		case x < 82:
 			o.kind = "C"
-		case x < 94:
+		case x < 91:
 			o.kind, o.full = "M", r.Bool()
+		case x < 96:
+			o.kind, o.ms = "D", detMsts[1]
 		default:
 			o.kind = "X"
 		}
@@ -722,6 +739,8 @@ func (l *lpRun) forcedOp(kind string) *lpOp {
 		o.batch = l.genBatch(&l.hiWater)
 	case "M":
 		o.full = true
+	case "D":
+		o.ms = detMsts[1]
 	}
 	return o
 }
@@ -733,6 +752,12 @@ func (l *lpRun) race() error {
 	if l.directed >= 0 && l.directed < len(lpDirected) {
 		dd := lpDirected[l.directed]
 		a, b = l.forcedOp(dd.a), l.forcedOp(dd.b)
+		if dd.a == "D" && dd.b == "Q" {
+			b.ms = a.ms
+		}
+		if dd.b == "D" && dd.a == "Q" {
+			a.ms = b.ms
+		}
 		filter, target = "~"+dd.site, 1
 		if dd.nth > 0 {
 			target = dd.nth
@@ -865,6 +890,15 @@ func (l *lpRun) race() error {
 
 	// ---- panics, errors
 	closedNow := a.kind == "X" || b.kind == "X"
+	droppedMs := ""
+	for _, o := range []*lpOp{a, b} {
+		if o.kind == "D" {
+			droppedMs = o.ms
+			if o.perr == "" && o.err != nil {
+				l.c.Count("lp:drop-returned-error")
+			}
+		}
+	}
 	for _, o := range []*lpOp{a, b} {
 		if o.perr != "" {
 			line := l.emit("note lock-point round", "ok")
@@ -899,7 +933,7 @@ func (l *lpRun) race() error {
 	}()
 
 	// ---- emission: the model steps in the order in which they happened, when it is known
-	tied := inWindow && b.observed && !closedNow
+	tied := inWindow && b.observed && !closedNow && droppedMs == ""
 	var q, w *lpOp
 	for _, o := range []*lpOp{a, b} {
 		if o.kind == "Q" {
@@ -1029,11 +1063,18 @@ func (l *lpRun) race() error {
 	if q != nil && q.perr == "" {
 		switch {
 		case strings.HasPrefix(qAns, "err "):
-			if !(closedNow && strings.Contains(qAns, "closed")) {
+			if droppedMs == q.ms {
+				l.c.Count("lp:query-overlapping-drop:error")
+			} else if !(closedNow && strings.Contains(qAns, "closed")) {
 				l.viol(qLine, "read_error", fmt.Sprintf("history %d (%s): %s answered %q", l.idx, l.kinds.String(), q, qAns))
 			} else {
 				l.c.Count("lp:query-closed-under-it")
 			}
+		case droppedMs == q.ms:
+			// the measurement was being dropped: its rows in the memtable are thrown away by the
+			// drop's own flush, its files are delisted - what a query sees meanwhile is not defined
+			// (C13 says what is left afterwards); here only: no crash, no deadlock
+			l.c.Count("lp:query-overlapping-drop")
 		case closedNow:
 			// the query overlapped Close. A view taken after Close began is not `ok` in the model
 			// (no active table any more, the memtable rows are only in the log; the owner of the shard
@@ -1138,6 +1179,17 @@ func (l *lpRun) race() error {
 	}
 	if closedNow {
 		l.closed, l.filesClosed = true, true
+	}
+	if droppedMs != "" {
+		// what the measurement holds after the drop is C13's subject; here: no crash, no deadlock,
+		// and the other measurement is untouched
+		l.dropped = map[string]bool{droppedMs: true}
+		for k := range l.spec {
+			if k.ms == droppedMs {
+				delete(l.spec, k)
+			}
+		}
+		l.c.Count("lp:drop-in-flight")
 	}
 	return nil
 }
